@@ -528,4 +528,5 @@ pub fn generate(rng: &mut Rng, tier: Tier, emit: &mut dyn FnMut(String)) {
     }
     carrier::generate(rng, tier, emit);
     super::external::generate_conv(rng, 2_000 * scale, emit);
+    super::vnorm::generate_vnorm(rng, 1_500 * scale, emit);
 }
